@@ -203,14 +203,21 @@ Definition run_c06 (args : list str) : str :=
       | _ => w_badcase
       end
     else if str_eqb op op_ren then
+      (* others: the names of the reachable parts the presentation part has no slide
+         relationship to; names: the targets of its slide relationships, by index *)
       match read_list rest with
-      | Some (names, r1) =>
-        match read_list r1 with
-        | Some (pr, rIds) =>
-          match read_prels pr with
-          | Some prels =>
-              fields [show_res show_strs (rename_slide_parts prels rIds names);
-                      show_str (next_slide_partname (length rIds))]
+      | Some (others, r0) =>
+        match read_list r0 with
+        | Some (names, r1) =>
+          match read_list r1 with
+          | Some (pr, rIds) =>
+            match read_prels pr with
+            | Some prels =>
+                fields [show_res show_strs (rename_slide_parts prels rIds names);
+                        show_res show_str (next_slide_partname (length rIds)
+                                             (others ++ rename_effect prels rIds names))]
+            | None => w_badcase
+            end
           | None => w_badcase
           end
         | None => w_badcase
